@@ -10,6 +10,19 @@
 
 let wchar_w = 2 * int_of_n sizeof_wchar
 
+(* direct conversions (no zarith on the hot path of the digest mode) *)
+let rec pos_of_i i = if i = 1 then XH else if i land 1 = 1 then XI (pos_of_i (i lsr 1)) else XO (pos_of_i (i lsr 1))
+let n_of_i i = if i = 0 then N0 else Npos (pos_of_i i)
+let rec i_of_pos = function XH -> 1 | XO p -> 2 * i_of_pos p | XI p -> 2 * i_of_pos p + 1
+let i_of_n = function N0 -> 0 | Npos p -> i_of_pos p
+let fast_hex width (l : n list) : string =
+  if l = [] then "." else begin
+    let b = Buffer.create (width * 8) in
+    List.iter (fun u -> Buffer.add_string b (Printf.sprintf "%0*x" width (i_of_n u))) l;
+    Buffer.contents b
+  end
+let bufinfo width (l : n list) = Printf.sprintf "%s size=%d term=1" (fast_hex width l) (List.length l)
+
 type fn = {
   srcw : int; dstw : int;
   e : encoding; tg : target;
@@ -73,10 +86,19 @@ let split_op op =
 let enc_of_target = function TS | T8 -> E8 | T16 -> E16 | T32 -> E32 | TL1 -> EL1
 
 (* one conversion: (model line, spec line) *)
-let one (f : fn) route mode sub (src : n list option) (scalars : n list option) : string * string =
+let one ?(light = false) (f : fn) route mode sub (src : n list option) (scalars : n list option) : string * string =
   let m = match f.forced with Some fm -> fm | None -> mode in
   ignore route;
   let units = match src with Some l -> l | None -> [] in
+  if light then begin
+    (* digest mode over scalar values: the reference is the standard encoding alone (Utf/Spec.v);
+       that the tokeniser specification agrees on well-formed text is theorem spec_conv_wellformed,
+       and is also checked case by case in line mode *)
+    let sc = match scalars with Some sc -> sc | None -> [] in
+    let std = if m = CheckValidity && enc f.e sc <> units then "FAULT SpecInputMismatch"
+      else "OK " ^ bufinfo f.dstw (enc (enc_of_target f.tg) sc) in
+    (pr_outcome (bufinfo f.dstw) (f.run m sub src), std)
+  end else
   let spec = spec_conv f.e f.tg m sub units in
   let sline = match spec with
     | SOk l -> "OK " ^ bufinfo f.dstw l
@@ -103,7 +125,6 @@ let fnv_add (h : int64) (s : string) : int64 =
   !h
 let fnv_init = 0xcbf29ce484222325L
 
-let n_of_i = n_of_int
 
 (* generalised UTF-8 of a value below 0x200000 (surrogates and values above 0x10FFFF included) *)
 let gen_utf8 c =
@@ -156,7 +177,7 @@ let enum domain (f : fn) route mode sub lo hi : string * string =
     | Some us ->
         let src = List.map n_of_i us in
         let scalars = if domain = "scalar" && f.tg <> TL1 then Some [n_of_i i] else None in
-        let (m, s) = one f route mode sub (Some src) scalars in
+        let (m, s) = one ~light:(scalars <> None) f route mode sub (Some src) scalars in
         let m = if String.length m > 2 && String.sub m (String.length m - 2) 2 = " ~"
           then String.sub m 0 (String.length m - 2) else m in
         if s = "ANYOK" || s = "ANY" then any := true;
